@@ -395,7 +395,14 @@ func (f *Frame) closureTerm(c ClosureVal) *Term {
 func (f *Frame) havocTop(st *State) {
 	f.ctx.eng.nextBase++
 	st.base = f.ctx.eng.nextBase
-	st.heap = map[string]*Term{}
+	// at-call let registers are ghost values of the function under verification, not memory
+	keep := map[string]*Term{}
+	for k, v := range st.heap {
+		if strings.HasPrefix(k, "$let!") {
+			keep[k] = v
+		}
+	}
+	st.heap = keep
 	na := f.ctx.fresh("alloc", SInt)
 	f.ctx.assume(Ge(na, st.alloc))
 	st.alloc = na
